@@ -153,9 +153,16 @@ class ApiGen:
                 code = 'private _i = 0; while { _i < 8 } do { _i = _i + 1 }; gb = _i'
                 I['globals'].add('gb')
             else:  # spawn
-                code = 'h = [] spawn { sleep 0.02; gc = 3 }; ga = 2'
+                kind = r.choice(['sleep', 'terminate_self', 'terminate_handle'])
+                if kind == 'sleep':
+                    code = 'h = [] spawn { sleep 0.02; gc = 3 }; ga = 2'
+                    I['globals'].add('gc')
+                elif kind == 'terminate_self':
+                    # the terminated script is the last one to leave the scheduler, its last slice ended in sleep
+                    code = 'ga = 1; [] spawn { terminate _thisScript; sleep 0.02; gd = 2 }; ga'
+                else:
+                    code = 'ga = 1; h = [] spawn { sleep 0.02; gd = 2 }; terminate h; ga'
                 I['globals'].add('ga')
-                I['globals'].add('gc')
                 if I['limit'] != 0:
                     rc = None
             ops.append('call %d %d %s %s' % (slot, calltag, ty, hx(code)))
